@@ -119,11 +119,23 @@ func (s *Sess) GetJWTHeader() *jwt.Headers {
 	return s.JWTHeader
 }
 
+// Clone goes through the shipped openid.DefaultSession.Clone for the embedded session (that is the code
+// integrators run) and deep-copies the JWT parts.
 func (s *Sess) Clone() fosite.Session {
 	if s == nil {
 		return nil
 	}
-	return deepcopy.Copy(s).(fosite.Session)
+	c := &Sess{}
+	if s.DefaultSession != nil {
+		c.DefaultSession = s.DefaultSession.Clone().(*openid.DefaultSession)
+	}
+	if s.JWTClaims != nil {
+		c.JWTClaims = deepcopy.Copy(s.JWTClaims).(*jwt.JWTClaims)
+	}
+	if s.JWTHeader != nil {
+		c.JWTHeader = deepcopy.Copy(s.JWTHeader).(*jwt.Headers)
+	}
+	return c
 }
 
 // NewSess builds a session for subject sub.
